@@ -4,8 +4,8 @@ import Generated.C03Table
 # C03 — facts about tables re-extracted from the repository on every run
 
 `Generated/C03Table.lean` is rewritten by `harness/c03.py` from the source text of
-`Molecule.share_moltype_with` (the `ignore_attrs` tuple) and of `write_molecule_itp` (the fields
-of an `[ atoms ]` line).  The theorems below tie the constants used by the model and its proofs to
+`Molecule.share_moltype_with` (the `ignore_attrs` and `written_meta` tuples) and of
+`write_molecule_itp` (the fields of an `[ atoms ]` line, the `molecule.meta` keys it reads).  The theorems below tie the constants used by the model and its proofs to
 what the code says now.
 -/
 namespace C03
@@ -18,6 +18,20 @@ the molecule-type comparison: molecules sharing a type cannot differ in anything
 line shows -/
 theorem itp_fields_compared :
     ∀ k ∈ "atomid" :: Generated.C03.itpAtomFieldsRepo, Generated.C03.ignoreAttrsRepo.contains k = false := by decide
+
+/-- the model compares exactly the meta entries the code compares -/
+theorem writtenMeta_extracted : writtenMeta = Generated.C03.writtenMetaRepo := by decide
+
+/-- the model's ITP view shows exactly the meta entries `write_molecule_itp` reads (besides the
+moltype, which is the name itself) -/
+theorem itpMetaKeys_extracted :
+    (∀ k ∈ Generated.C03.itpMetaKeysRepo, k = "moltype" ∨ k ∈ itpMetaKeys)
+    ∧ (∀ k ∈ itpMetaKeys, k ∈ Generated.C03.itpMetaKeysRepo) := by decide
+
+/-- **every meta entry the ITP writer reads is compared by `share_moltype_with`** (the moltype
+excepted): molecules sharing a type cannot differ in metadata the ITP shows -/
+theorem itp_meta_compared :
+    ∀ k ∈ Generated.C03.itpMetaKeysRepo, k = "moltype" ∨ k ∈ Generated.C03.writtenMetaRepo := by decide
 
 /-- the three fields of a coordinate record that the property speaks about are ITP atom fields -/
 theorem rec_fields_in_itp :
